@@ -23,6 +23,16 @@ Proof. intros name body Hin. pose proof C13_all_well_locked as H. rewrite forall
 Theorem C13_macros_as_reviewed : mutex_macros_reviewed = true /\ forallb snd mutex_new_recursive = true.
 Proof. split; reflexivity. Qed.
 
+(* the operations keep no state outside the containers: the only variables with static storage duration that the container sources
+   define (file scope, function-local static, thread-local; const ones excepted - regenerated from clang's AST on every run) are the
+   three debugging statistics counters of the tree table, which no operation reads.  A look-up cache in a static or per-thread
+   variable would be state that the container's lock does not protect (seed C13-20). *)
+Definition reviewed_static_state : list string :=
+  ["_q_treetbl_flip_color_cnt"; "_q_treetbl_rotate_left_cnt"; "_q_treetbl_rotate_right_cnt"]%string.
+Theorem C13_no_state_outside_containers :
+  forallb (fun p => existsb (String.eqb (snd p)) reviewed_static_state) static_state = true.
+Proof. reflexivity. Qed.
+
 (* any interleaving of disciplined calls = the calls one at a time in linearization order *)
 Theorem C13_linearizable : forall (St V : Type) (s0 : St) (progs : list (list (code St V))) (sched : list nat),
   (forall p k, In p progs -> In k p -> wl St V 0 false k) ->
@@ -64,3 +74,4 @@ Print Assumptions C13_macros_as_reviewed.
 Print Assumptions C13_linearizable.
 Print Assumptions C13_bridge.
 Print Assumptions C13_end_to_end.
+Print Assumptions C13_no_state_outside_containers.
